@@ -365,6 +365,16 @@ class _Unroll(ast.NodeTransformer):
         self.generic_visit(node)
         return node
 
+    def visit_Starred(self, node):
+        # *(E for x in (a, b))  ->  *(E[a], E[b])
+        self.generic_visit(node)
+        v = node.value
+        if isinstance(v, (ast.GeneratorExp, ast.ListComp)):
+            items = self._comp_items(v, [v.elt])
+            if items is not None:
+                node.value = ast.copy_location(ast.Tuple(elts=[i[0] for i in items], ctx=ast.Load()), v)
+        return node
+
     def _split_first(self, node):
         """[E for a in (x, y) for b in f(a)]  ->  [E[a:=x] for b in f(x)] + [E[a:=y] for b in f(y)]"""
         if len(node.generators) < 2 or isinstance(node, ast.DictComp):
@@ -472,7 +482,9 @@ def _bind(helper, call):
     params = [x.arg for x in a.args]
     static = any(isinstance(d, ast.Name) and d.id == 'staticmethod' for d in helper.decorator_list)
     binding = {}
-    if not static and not getattr(helper, '_module_level', False):
+    if any(isinstance(d, ast.Name) and d.id == 'classmethod' for d in helper.decorator_list):
+        params = params[1:]           # cls: unused in the body (checked by eligible)
+    elif not static and not getattr(helper, '_module_level', False):
         if params and isinstance(call.func, ast.Attribute) and not (
                 isinstance(call.func.value, ast.Name) and call.func.value.id == 'self'):
             binding[params[0]] = call.func.value       # self := the receiver
@@ -536,8 +548,11 @@ class Inliner:
         n_stmts = sum(1 for n in _walk_no_nested(h) if isinstance(n, ast.stmt))
         if n_stmts > MAX_HELPER_STMTS:
             return False
-        if any(d for d in h.decorator_list if not (isinstance(d, ast.Name) and d.id == 'staticmethod')):
+        if any(d for d in h.decorator_list if not (isinstance(d, ast.Name) and d.id in ('staticmethod', 'classmethod'))):
             return False
+        if any(isinstance(d, ast.Name) and d.id == 'classmethod' for d in h.decorator_list) and h.args.args and any(
+                isinstance(n, ast.Name) and n.id == h.args.args[0].arg for n in _walk_no_nested(h)):
+            return False        # a class method that still uses its class (class constants are folded before)
         # direct recursion
         for n in _walk_no_nested(h):
             if isinstance(n, ast.Call) and isinstance(n.func, ast.Attribute) and n.func.attr == name:
@@ -572,6 +587,26 @@ class Inliner:
         with locals and parameters substituted; else None"""
         env = dict(binding)
         body = [s for s in h.body if not _is_docstring(s) and not _is_logging(s)]
+        # search loop:  for x in S: if C: return K / return not K   is   any/all over S
+        if len(body) == 2 and isinstance(body[0], ast.For) and not body[0].orelse and isinstance(body[0].target, ast.Name) \
+                and isinstance(body[1], ast.Return) and isinstance(body[1].value, ast.Constant) \
+                and isinstance(body[1].value.value, bool):
+            inner = [s for s in body[0].body if not _is_logging(s)]
+            if len(inner) == 1 and isinstance(inner[0], ast.If) and not inner[0].orelse and len(inner[0].body) == 1 \
+                    and isinstance(inner[0].body[0], ast.Return) and isinstance(inner[0].body[0].value, ast.Constant) \
+                    and inner[0].body[0].value.value is (not body[1].value.value):
+                k1 = inner[0].body[0].value.value
+                c = inner[0].test
+                if not k1:
+                    c = c.operand if isinstance(c, ast.UnaryOp) and isinstance(c.op, ast.Not) else ast.UnaryOp(
+                        op=ast.Not(), operand=c)
+                g = ast.GeneratorExp(elt=copy.deepcopy(c), generators=[ast.comprehension(
+                    target=copy.deepcopy(body[0].target), iter=copy.deepcopy(body[0].iter), ifs=[], is_async=0)])
+                e = ast.Call(func=ast.Name(id='any' if k1 else 'all', ctx=ast.Load()), args=[g], keywords=[])
+                ast.copy_location(e, body[0])
+                ast.fix_missing_locations(e)
+                sub = {k: v for k, v in env.items() if k != body[0].target.id}
+                return _Subst(sub).visit(e)
 
         def as_expr(st):
             # `if c: return A else: return B` (possibly nested) is the expression A if c else B
@@ -861,6 +896,24 @@ class _InlineStmts(ast.NodeTransformer):
                         return [init, loop]
         return node
 
+    def visit_If(self, node):
+        # if [not] self._check(...):  with a helper that is not a plain expression -- computed into
+        # a temporary first (it is the first thing the test evaluates)
+        t = node.test
+        neg = isinstance(t, ast.UnaryOp) and isinstance(t.op, ast.Not)
+        call = t.operand if neg else t
+        pre = []
+        if isinstance(call, ast.Call) and self._has_stmt_helper(call) and not any(
+                self._has_stmt_helper(a) for a in list(call.args) + [k.value for k in call.keywords]):
+            tmp = _fresh('cond')
+            r = self._try(call, [ast.Name(id=tmp, ctx=ast.Store())], node)
+            if r is not None:
+                pre = r
+                nm = ast.copy_location(ast.Name(id=tmp, ctx=ast.Load()), t)
+                node.test = ast.copy_location(ast.UnaryOp(op=ast.Not(), operand=nm), t) if neg else nm
+        self.generic_visit(node)
+        return pre + [node] if pre else node
+
     def visit_Return(self, node):
         if node.value is not None:
             pre = self._hoist(node)
@@ -1043,7 +1096,7 @@ def _forward_flags(fn):
             for h in getattr(st, 'handlers', []) or []:
                 block(h.body)
             if isinstance(st, ast.Assign) and len(st.targets) == 1 and isinstance(st.targets[0], ast.Name) \
-                    and isinstance(st.value, ast.Call) and i + 1 < len(stmts) and isinstance(stmts[i + 1], ast.If):
+                    and isinstance(st.value, (ast.Call, ast.Compare)) and i + 1 < len(stmts) and isinstance(stmts[i + 1], ast.If):
                 x = st.targets[0].id
                 nxt = stmts[i + 1]
                 uses = [n for n in ast.walk(nxt.test) if isinstance(n, ast.Name) and n.id == x]
@@ -1196,6 +1249,60 @@ def _closures(fn):
     return {k: v for k, v in out.items() if v is not None}
 
 
+def _fuse_comprehensions(fn):
+    """N13: `xs = [T(a) for a in D]` used once, as the iterable of another comprehension
+    `[F(x) for x in xs]`: the two are one comprehension `[F(T(a)) for a in D]` (the elements of
+    the intermediate list are only read)."""
+    loads, stores = {}, {}
+    for n in _walk_no_nested(fn):
+        if isinstance(n, ast.Name):
+            d = loads if isinstance(n.ctx, ast.Load) else stores
+            d[n.id] = d.get(n.id, 0) + 1
+    changed = False
+
+    def block(stmts):
+        nonlocal changed
+        i = 0
+        while i < len(stmts):
+            st = stmts[i]
+            for field in ('body', 'orelse', 'finalbody'):
+                sub = getattr(st, field, None)
+                if isinstance(sub, list) and not isinstance(st, (ast.FunctionDef, ast.AsyncFunctionDef, ast.ClassDef)):
+                    block(sub)
+            for h in getattr(st, 'handlers', []) or []:
+                block(h.body)
+            if isinstance(st, ast.Assign) and len(st.targets) == 1 and isinstance(st.targets[0], ast.Name) \
+                    and isinstance(st.value, (ast.ListComp, ast.GeneratorExp)) and len(st.value.generators) == 1 \
+                    and isinstance(st.value.generators[0].target, ast.Name) and i + 1 < len(stmts):
+                x = st.targets[0].id
+                inner = st.value
+                if loads.get(x, 0) == 1 and stores.get(x, 0) == 1:
+                    nxt = stmts[i + 1]
+                    for c in ast.walk(nxt):
+                        if isinstance(c, (ast.ListComp, ast.GeneratorExp, ast.SetComp)) and isinstance(
+                                c.generators[0].iter, ast.Name) and c.generators[0].iter.id == x and isinstance(
+                                    c.generators[0].target, ast.Name) and len(c.generators) == 1:
+                            g = c.generators[0]
+                            v = g.target.id
+                            ig = inner.generators[0]
+                            others = {n.id for n in ast.walk(c.elt) if isinstance(n, ast.Name)} | {
+                                n.id for f_ in g.ifs for n in ast.walk(f_) if isinstance(n, ast.Name)}
+                            if ig.target.id in others - {v}:
+                                break
+                            sub = _Subst({v: inner.elt})
+                            c.elt = sub.visit(c.elt)
+                            g.ifs = [copy.deepcopy(f_) for f_ in ig.ifs] + [sub.visit(f_) for f_ in g.ifs]
+                            g.target = copy.deepcopy(ig.target)
+                            g.iter = copy.deepcopy(ig.iter)
+                            del stmts[i]
+                            changed = True
+                            i -= 1
+                            break
+            i += 1
+    block(fn.body)
+    return changed
+
+
 def normalize_module(tree, no_inline, all_classes=None, recorded=None):
     """Normalise one module in place.  Returns {helper qual: inlined call count}.
     recorded: {class name: names of its methods in the recorded (pinned) tree}."""
@@ -1274,6 +1381,8 @@ def normalize_module(tree, no_inline, all_classes=None, recorded=None):
                     _FoldConst().visit(fn)
                 else:
                     break
+            if _fuse_comprehensions(fn):
+                _idioms.rewrite_function(fn, c.name)
             _SplitTupleAssign().visit(fn)
             _forward_process_temps(fn)
             _forward_flags(fn)
